@@ -40,6 +40,7 @@ static void ts_build(void) {
     g_run.head.next = ts_pick();           g_run.head.prev = NULL;
     g_run.tail.prev = ts_pick();           g_run.tail.next = NULL;
     g_sc.alloc = &g_ts_alloc;
+    g_q_slot[0] = &g_tk[0]; g_q_slot[1] = &g_tk[1]; g_q_slot[2] = &g_tk[2]; g_q_slot[3] = &g_tk[3];
 }
 static struct aws_task *ts_any_task(void) {
     size_t i = nondet_size_t();
@@ -50,7 +51,7 @@ static struct aws_task *ts_any_task(void) {
     do {                                                                                                               \
         GHOST_RESET_TS();                                                                                              \
         g_fn_calls = nondet_size_t(); g_q_npush = nondet_size_t(); g_q_ntop = nondet_size_t(); g_q_nremove = nondet_size_t(); \
-        g_fn_task = NULL; g_fn_arg = NULL; g_q_pushed = NULL; g_q_pushed_bp = NULL; g_q_removed_bp = NULL; g_q_top = NULL; \
+        g_fn_task = NULL; g_fn_arg = NULL; g_q_pushed = NULL; g_q_pushed_bp = NULL; g_q_removed_bp = NULL; \
         g_w = NULL; g_wn = NULL; g_wn_next = NULL; g_wn_prev = NULL;                                                   \
     } while (0)
 
@@ -112,7 +113,7 @@ void h_has_tasks(void) {
     TS_GHOSTS(); ts_build();
     g_on = true;
     g_w = ts_any_task(); g_w_asap = nondet_bool(); g_w_list = nondet_bool(); g_w_heap = nondet_bool();
-    g_q_size = nondet_size_t(); g_q_top = ts_any_task();
+    g_q_size = nondet_size_t(); g_q_top_i = nondet_size_t();
     uint64_t *out = nondet_bool() ? &g_next_out : NULL;
     bool r = aws_task_scheduler_has_tasks(&g_sc, out);
     if (!out) CANARY("no out parameter");
@@ -123,7 +124,7 @@ void h_has_tasks(void) {
 }
 void h_has_tasks_none(void) {
     TS_GHOSTS(); ts_build();
-    g_q_size = nondet_size_t(); g_q_top = ts_any_task();
+    g_q_size = nondet_size_t(); g_q_top_i = nondet_size_t();
     uint64_t *out = nondet_bool() ? &g_next_out : NULL;
     bool r = aws_task_scheduler_has_tasks(&g_sc, out);
     if (!r && out && g_next_out == UINT64_MAX) CANARY("nothing pending: UINT64_MAX");
